@@ -139,6 +139,7 @@ type vfNodeCfg struct {
 	Params          *GossipSubParams // nil: defaults
 	ManualHeartbeat bool
 	Workers         int
+	Connectors      int // > 0: run that many PX connectors (default: none, the harness reads the connect channel itself)
 }
 
 const vfNever = 1000 * time.Hour
@@ -177,7 +178,7 @@ func newVfNodeWith(t *testing.T, cfg vfNodeCfg, prep func(*vfHost)) (*vfNode, er
 		if cfg.ManualHeartbeat {
 			p.HeartbeatInitialDelay = vfNever
 		}
-		p.Connectors = 0 // PX / direct connect requests stay on the connect channel where the harness reads them
+		p.Connectors = cfg.Connectors // default 0: PX / direct connect requests stay on the connect channel where the harness reads them
 		if p.MaxPendingConnections == 0 {
 			p.MaxPendingConnections = 128
 		}
